@@ -27,7 +27,8 @@ CHECKS = {
               'insertion order and on all 65,536 4-vertex digraphs (exhaustive for those bounds), plus random digraphs to 12 vertices, and judged '
               'against components computed from the Warshall closure and the order condition; nonterminal_graph is compared with the relation '
               'read off generated grammar specs; a hook on SumProduct.apply_to_patterned_tensors records the order in which SCCs are solved and an '
-              'offline checker verifies that nothing is solved before its dependencies and every nonterminal gets a value.'),
+              'offline checker verifies that nothing is solved before its dependencies and every nonterminal gets a value.'
+              ' Grammars are also edited after evaluation (edge added to an existing right-hand side / rule added) and evaluated again; nonterminals that are only declared, start symbols without rules and rule-less grammars are included.'),
         design_ref='DESIGN.md §4 C19'),
     'C20': dict(
         technique='boundary monitor with table-lookup reference model over generated domain/factor universes (runtime monitoring)',
@@ -63,7 +64,8 @@ CHECKS = {
               '(exact in Bool, 1e-9 in Viterbi, a tol-proportional bound derived from the Jacobian in Real/Log). Hooks on fixed_point, newton, '
               'MultiTensor.shouldStop and warnings.warn record per solver activation the stopping verdicts and warnings; the offline rule is that a '
               'solver returning with its last verdict False must have warned. method="linear" must raise ValueError exactly on specs that are not '
-              'linearly recursive.'),
+              'linearly recursive.'
+              ' Further strata: patterned factor weights, matrix closures with a sparse base factor, long path automata, a cyclic component with a private outside dependency; the same FGG object re-weighted (setter or in place) and solved again; with kmax=5000 on these conditioned grammars an exhausted budget is itself a violation.'),
         design_ref='DESIGN.md §4 C02'),
     'C03': dict(
         technique='boundary monitor on backward() vs autograd through an independent dense unrolled Kleene iteration (runtime monitoring)',
@@ -72,7 +74,8 @@ CHECKS = {
               'sum_product is differentiated in the Real and Log semirings under every admissible method with a random output cotangent, and each '
               'weights.grad is compared (rtol 1e-6) with torch.autograd through a dense K-step Kleene iteration written independently, K doubled '
               'until values and gradients are stationary to 1e-10. Hooks count SumProduct.backward, J, J_log and the duplicated-external-node '
-              'special case so that an unreached mechanism makes the run inconclusive.'),
+              'special case so that an unreached mechanism makes the run inconclusive.'
+              ' A weight edited in place between forward and backward() may make autograd refuse; a gradient that is returned must be the derivative of the value that was returned.'),
         design_ref='DESIGN.md §4 C03'),
     'C04': dict(
         technique='boundary monitor on viterbi/derive with independent well-formedness checker and exact max-plus Kleene oracle (runtime monitoring)',
@@ -138,7 +141,8 @@ CHECKS = {
               'with values and gradients compared to the independent reference (so the wrong side is named), the Bool/Viterbi results are checked '
               'against the support / the Log value, the same seeded batch is executed by python, python -O and python -OO subprocesses whose '
               'hex-dumped results must agree to 1e-12, and bin/sum_product.py is run under -OO on generated JSON files and compared with the '
-              'reference. Hooks prove that both J and J_precompute_products ran. One open finding: j_precompute=True (D6).'),
+              'reference. Hooks prove that both J and J_precompute_products ran. One open finding: j_precompute=True (D6).'
+              ' Further strata: command-line corner cases (unused factor, no factor participates, zero start, start arity 2), long path automata, and Log-semiring runs on weights scaled by 1e-9..1e-12 (the real value underflows float32) that must still give log Z in both dtypes and all methods.'),
         design_ref='DESIGN.md §4 C11'),
     'C12': dict(
         technique='metamorphic monitor over presentations (orders, ids, renamings, value permutations) + PYTHONHASHSEED subprocess sweep; hooks record the SCC, elimination and edge orders actually taken (runtime monitoring)',
@@ -176,7 +180,8 @@ CHECKS = {
               'every conjoined rule; the monitor checks that the conjoined rules are exactly the conjoinable pairs (independent predicate), that '
               'each carries the nodes, externals, one paired nonterminal edge per shared edge and the terminal edges of both rules, that paired '
               'names are unique and collide with nothing, that conflicts raise ValueError, and that the derivation trees of the result up to depth '
-              '4/6 are in bijection with the independently enumerated pairs of derivation trees of the inputs.'),
+              '4/6 are in bijection with the independently enumerated pairs of derivation trees of the inputs.'
+              ' In part of the cases the first grammar is edited in place after a conjunction (a nonterminal edge relabelled) and conjoined again.'),
         design_ref='DESIGN.md §4 C17'),
     'C18': dict(
         technique='snapshot + Tensor._version monitor around every step of random query sequences on the same objects; repeated-query reproducibility monitor; clone-aliasing probe (runtime monitoring)',
@@ -186,7 +191,8 @@ CHECKS = {
               'public accessors (structure, label tables, domains; for every weight tensor bytes, shape, strides, offset, dtype, default, '
               'requires_grad, axis objects) and the storage version counters are compared, so both .data writes and write-then-restore are seen; '
               'each repeated query must reproduce its first result bitwise (tensors) / isomorphically (grammars) whatever ran in between; '
-              'in-place operations on MultiTensor clones must leave the source untouched.'),
+              'in-place operations on MultiTensor clones must leave the source untouched.'
+              ' The grammar factorize_fgg returns is itself passed to the JSON writers and snapshotted; finite domains with tuple / frozenset values; snapshots never read through a monitored writer.'),
         design_ref='DESIGN.md §4 C18'),
 }
 
